@@ -9,6 +9,41 @@ From Verif Require Import Base.Num Base.Vec Base.VecR C16.Syntax Gen.Padding C16
 Import ListNotations.
 Local Open Scope R_scope.
 
+(* T1: the forward direction computes exactly the named rule.  [resize_ref]
+   (C16/Model.v) is the index formula: entry i of the result is position i - off of
+   the extension of x -- x itself inside, and outside: the constant; periodic
+   x[(j) mod n]; symmetric x[-j] / x[2(n-1)-j] (reflection WITHOUT repeating the
+   edge); order0 the edge value; order1 the edge value plus (distance) * edge slope --
+   and entry i + off of x when shrinking.  All lengths, all admissible offsets
+   (padding up to the array length for periodic, up to length-1 for symmetric),
+   all contents and constants. *)
+Theorem resize_forward_rule : forall (m : pmode) (c : R) (x : list R) (n_out : nat) (off : Z),
+  offset_ok (length x) n_out off = true ->
+  pad_legal m (length x) n_out off = true ->
+  resize1 m Forward c true x n_out off = Ok (resize_ref m c x n_out off).
+Proof. exact forward_is_ref. Qed.
+Print Assumptions resize_forward_rule.
+
+(* T1: extending (any mode m, constant c) and then cropping with the matching
+   offset (any mode) is the identity. *)
+Theorem crop_after_extend : forall (m m' : pmode) (c c' : R) (cast' : bool) (x : list R) (n_out : nat) (off : Z),
+  (length x <= n_out)%nat ->
+  offset_ok (length x) n_out off = true ->
+  pad_legal m (length x) n_out off = true ->
+  exists fx, resize1 m Forward c true x n_out off = Ok fx /             resize1 m' Forward c' cast' fx (length x) off = Ok x.
+Proof. exact crop_extend. Qed.
+Print Assumptions crop_after_extend.
+
+(* T1: padding lengths outside the documented limits are rejected (ValueError)
+   in both directions, whatever the contents. *)
+Theorem illegal_padding_rejected : forall (m : pmode) (c : R) (cast : bool) (x y : list R) (off : Z),
+  (length x < length y)%nat ->
+  offset_ok (length x) (length y) off = true ->
+  pad_legal m (length x) (length y) off = false ->
+  resize1 m Forward c cast x (length y) off = ValueErr /  resize1 m Adjoint c cast y (length x) off = ValueErr.
+Proof. exact illegal_rejected. Qed.
+Print Assumptions illegal_padding_rejected.
+
 (* T1: forward and adjoint directions are transposes of each other.  For every
    mode, every input length, every output length (growing, shrinking, equal),
    every admissible offset and all contents x, y: both directions succeed and
@@ -30,3 +65,7 @@ Example side_conditions_satisfiable :
   forallb (fun m => offset_ok 3 7 2 && pad_legal m 3 7 2 && offset_ok 5 2 3 && pad_legal m 5 2 3) all_pmodes = true
   /\ (offset_ok 3 9 3 && pad_legal PPeriodic 3 9 3 = true).
 Proof. split; vm_compute; reflexivity. Qed.
+Example illegal_exists :
+  offset_ok 3 7 3 && negb (pad_legal PSymmetric 3 7 3) && negb (pad_legal PPeriodic 3 8 4)
+  && negb (pad_legal POrder1 1 3 1) && negb (pad_legal POrder0 0 2 1) = true.
+Proof. vm_compute; reflexivity. Qed.
